@@ -185,6 +185,14 @@ func (sp *spec) lambda(w *world, scope, key string, seen map[string]string) *com
 		vsched.HUnlock()
 		if sp.process {
 			err := compose.ProcessState(ctx, func(ctx context.Context, s *St) error {
+				if sp.shape == "fan2panic" && key == "a" {
+					// the callback panics while it holds the state: the lock must be released all the same (the node
+					// fails; its sibling must not be left waiting for the state forever)
+					if sp.yield {
+						vsched.Yield()
+					}
+					panic("process-state-callback-panics")
+				}
 				w.section(scope+"body:"+key, s, sp.yield)
 				return nil
 			})
@@ -262,7 +270,7 @@ func (sp *spec) build() (func(), func(x *vsched.Exec) (string, error)) {
 	var resumeNote string
 	main := func() {
 		switch sp.shape {
-		case "fan2", "fan3", "fan2lazy":
+		case "fan2", "fan3", "fan2lazy", "fan2panic":
 			keys := []string{"a", "b"}
 			if sp.shape == "fan3" {
 				keys = append(keys, "c")
@@ -397,6 +405,16 @@ func (sp *spec) build() (func(), func(x *vsched.Exec) (string, error)) {
 		}
 		if len(x.Blocked) > 0 {
 			return "", fmt.Errorf("goroutines left blocked: %v", x.Blocked)
+		}
+		if sp.shape == "fan2panic" {
+			// no hang and nothing left blocked (checked above); the panic is an error of the run
+			if len(errs) == 0 || errs[0] == nil {
+				return "", fmt.Errorf("a ProcessState callback panicked but the run reported success: %v", results)
+			}
+			if !strings.Contains(errs[0].Error(), "process-state-callback-panics") {
+				return "", fmt.Errorf("run failed with an unrelated error: %v", errs[0])
+			}
+			return "failed-as-expected", nil
 		}
 		for _, e := range errs {
 			if e != nil {
@@ -571,7 +589,7 @@ func (sp *spec) build() (func(), func(x *vsched.Exec) (string, error)) {
 
 func main() {
 	c := harness.Init("C11")
-	c.Res.Rule = "scenario = stateful graph (Pregel / all-predecessor / eager Workflow) with 2-3 parallel nodes x which state users are present (state pre-handlers, post-handlers, ProcessState in node bodies; each a read-yield-write increment with enter/exit markers in the state's log) x shape (fan-out of 2 or 3, fan-out of 2 with STREAM state handlers that return lazily converted streams whose convert function calls ProcessState, stateful nested graph next to a parent node, two concurrent runs of one compiled graph, interrupt-after + resume with a StateModifier, an eager Workflow resumed with two restored tasks and a successor that starts while one of them is still running) x Invoke/Stream; every interleaving of executor goroutines, run loop and callers within the preemption bound, both map orders; distinct/non-trivial = distinct scheduling signatures of scenarios with >= 2 of them"
+	c.Res.Rule = "scenario = stateful graph (Pregel / all-predecessor / eager Workflow) with 2-3 parallel nodes x which state users are present (state pre-handlers, post-handlers, ProcessState in node bodies; each a read-yield-write increment with enter/exit markers in the state's log) x shape (fan-out of 2 or 3, fan-out of 2 in which one ProcessState callback panics while it holds the state (the sibling must not hang), fan-out of 2 with STREAM state handlers that return lazily converted streams whose convert function calls ProcessState, stateful nested graph next to a parent node, two concurrent runs of one compiled graph, interrupt-after + resume with a StateModifier, an eager Workflow resumed with two restored tasks and a successor that starts while one of them is still running) x Invoke/Stream; every interleaving of executor goroutines, run loop and callers within the preemption bound, both map orders; distinct/non-trivial = distinct scheduling signatures of scenarios with >= 2 of them"
 	c.Res.Assumptions = []string{
 		"sequential consistency at synchronisation granularity; critical-section bodies are atomic apart from their explicit yield",
 		"no happens-before state caching: a missing lock makes the state plain shared memory",
@@ -586,7 +604,7 @@ func main() {
 	}
 	type users struct{ pre, post, process bool }
 	us := []users{{false, false, true}, {true, true, false}, {true, true, true}, {false, true, true}, {true, false, true}}
-	for _, shape := range []string{"fan2", "fan2lazy", "nested", "tworuns", "resume", "wfresume", "fan3"} {
+	for _, shape := range []string{"fan2", "fan2lazy", "fan2panic", "nested", "tworuns", "resume", "wfresume", "fan3"} {
 		for _, mode := range []string{"pregel", "dag", "workflow"} {
 			if mode == "workflow" && (shape == "nested" || shape == "resume") {
 				continue
@@ -596,6 +614,9 @@ func main() {
 			}
 			for _, u := range us {
 				for _, call := range []string{"invoke", "stream"} {
+					if shape == "fan2panic" && !(u.process && !u.pre && !u.post) {
+						continue // only the ProcessState users
+					}
 					if shape == "fan2lazy" && !(u.process && (u.pre || u.post)) {
 						continue // needs a stream handler and a body that uses the state next to it
 					}
